@@ -6,18 +6,193 @@ tie (F)    : every function of src/bitmap.c on random bitmaps vs the extracted s
              small-step machine run alone vs the same records
 oracle (T) : bit-exact claim/unclaim oracles, pthread stress on the raw functions with a shadow owner
              array, the real arena (mi_manage_os_memory_ex + _mi_arena_alloc_aligned/_mi_arena_free)
-model (S)  : MODEL-SIDE testing only: random schedules of 2-4 model threads, inv_b after every step
+sched (S)  : harness/s_arena.c: the REAL src/bitmap.c / src/arena.c in 2-4 virtual threads under the deterministic
+             scheduler (every mi_atomic_* a scheduling point); implementation oracles with a shadow owner array
+             (witness = the deterministic schedule replay line) and SCHEDULE-LOCKSTEP replay of the atomic-access log on
+             the extracted small-step machine (`replay bitmap-trace`: same field, same old/new value, same outcome at
+             every step, inv_b after every step, results of completed calls)
+model (M)  : MODEL-SIDE testing only: random schedules of 2-4 model threads, inv_b after every step
 """
-import os, re, collections
-import vlib
+import os, re, collections, subprocess, concurrent.futures
+import vlib, conc
 from vlib import log
+
+SCHED_KINDS = {"lost-bit", "double-claim", "outside", "bad-unclaim", "not-claimed", "residue", "refill", "livelock", "crash", "setup"}
+PC_KEYS = ["FLoad", "FCas.ok", "FCas.fail", "ALoad", "AScan", "AInitLoad", "AInitCas.ok", "AInitCas.fail", "AMidCas.ok", "AMidCas.fail",
+           "AFinalLoad", "AFinalCas.ok", "AFinalCas.fail", "ARollStore", "ARollInitLoad", "ARollInitCas.ok", "ARollInitCas.fail",
+           "UPre", "UMid", "UPost", "PLoad", "PCas.ok", "PCas.fail", "PUnclaim"]
 
 
 def parse_kv(line):
     return dict(m.groups() for m in re.finditer(r'(\w+)=(-?\d+)', line))
 
+# ---- scheduler stage: harness/s_arena.c ----------------------------------------------------------------------
+def sched_build(res):
+    exe = os.path.join(vlib.BUILD, "s_arena")
+    ok, txt, cmd = vlib.cc(os.path.join(vlib.HARN, "s_arena.c"), exe, extra=conc.HOOK_FLAGS + ["-Dclock_gettime=verif_clock_gettime"])
+    if not ok:
+        res.violation("harness-build", "harness/s_arena.c no longer compiles against the current tree with the hooks on (a modelled function of bitmap.c / arena.c changed its interface): " + txt[-1500:])
+        return None
+    return exe
+
+
+def sched_run(exe, mode, seed, nt, nops, want_log=False, timeout=120):
+    cmd = [exe, mode, str(seed), str(nt), str(nops)] + (["log"] if want_log else [])
+    try:
+        p = subprocess.run(cmd, stdout=subprocess.PIPE, stderr=subprocess.PIPE, preexec_fn=vlib._limits, timeout=timeout, env=vlib.clean_env(), text=True, errors="replace")
+        return p.returncode, p.stdout
+    except subprocess.TimeoutExpired as ex:
+        o = ex.stdout or b""
+        return 124, (o.decode(errors="replace") if isinstance(o, bytes) else o) + "\nV livelock t0 step=0 harness timeout\n"
+
+
+def sched_parse(rc, out):
+    v, end, h = [], None, {}
+    for l in out.splitlines():
+        if l.startswith("V "):
+            f = l.split(" ", 2)
+            v.append((f[1], f[2] if len(f) > 2 else ""))
+        elif l.startswith("H "):
+            h = parse_kv(l)
+        elif l.startswith("END "):
+            end = parse_kv(l)
+    if end is None and not v:
+        v.append(("crash", "s_arena exited with status %d without END line" % rc))
+    return v, end, h
+
+
+def sched_lockstep(exe, job):
+    """one logged run + its replay on the extracted machine"""
+    mode, sd, nt, nops = job
+    rc, out = sched_run(exe, mode, sd, nt, nops, want_log=True, timeout=180)
+    logtxt = "\n".join(l for l in out.splitlines() if l[:2] in ("I ", "A ", "S ", "R ", "B ") or l in ("B", "I"))
+    rc2, mout = vlib.model_replay("bitmap-trace", logtxt + "\n", timeout=600)
+    return job, rc, out, mout
+
+
+def sched_shrink(exe, mode, sd, nt, nops, kind):
+    """fewer threads / shorter programs that still fail with the same oracle (same seed)"""
+    for t in range(2, nt + 1):
+        for n in (5, 10, 20, nops):
+            if n > nops or (t == nt and n == nops):
+                continue
+            v, _, _ = sched_parse(*sched_run(exe, mode, sd, t, n))
+            if any(k == kind for k, _ in v):
+                return t, n
+    return nt, nops
+
+
+def sched_stage(res, a, proofs_ok):
+    exe = sched_build(res)
+    if exe is None:
+        return
+    okb, txt = vlib.ocaml_build()
+    thorough = (a.tier == "thorough")
+    n_oracle = 6000 if thorough else 1500         # runs per mode, oracles only
+    n_lock = 240 if thorough else 48              # logged runs per mode, replayed in lockstep
+    base = a.seed * 1000000
+    ojobs = [(mode, base + i, 2 + i % 3, (90 if thorough else 50) if i % 4 else 20) for mode in ("raw", "arena") for i in range(n_oracle)]
+    ljobs = [(mode, base + 500000 + i, 2 + i % 3, (80 if thorough else 40) if i % 3 else 16) for mode in ("raw", "arena") for i in range(n_lock)]
+    stats = collections.Counter(); hsum = collections.Counter(); found = {}
+    def note(job, rc, out):
+        v, end, h = sched_parse(rc, out)
+        stats["schedules"] += 1; stats["schedules_" + job[0]] += 1
+        if end:
+            stats["atomic_steps"] += int(end.get("steps", 0)); stats["context_switches"] += int(end.get("switches", 0))
+        for k, x in h.items():
+            if k != "fields": hsum[k] += int(x)
+        for kind, text in v:
+            stats["viol:" + kind] += 1
+            if kind not in found or job[1] < found[kind][0][1]:
+                found[kind] = (job, text)
+        return v
+    with concurrent.futures.ThreadPoolExecutor(max_workers=int(vlib.JOBS)) as ex:
+        futs = {ex.submit(sched_run, exe, *j): j for j in ojobs}
+        for fu in concurrent.futures.as_completed(futs):
+            note(futs[fu], *fu.result())
+    # ---- lockstep ------------------------------------------------------------------------------------------
+    lstats = collections.Counter(); pcs = collections.Counter(); evs = collections.Counter(); first_mismatch = None
+    if not okb:
+        res.violation("model-build", "extracted model does not build: " + txt[-1200:])
+    else:
+        with concurrent.futures.ThreadPoolExecutor(max_workers=int(vlib.JOBS)) as ex:
+            for job, rc, out, mout in ex.map(lambda j: sched_lockstep(exe, j), ljobs):
+                v = note(job, rc, out)
+                lstats["logs"] += 1; lstats["logs_" + job[0]] += 1
+                m = re.search(r'STAT bitmap-lockstep lines=(\d+) atomic_steps=(\d+) inv_b_checks=(\d+) calls=(\d+) observer_loads=(\d+) inferred_purge_steps=(\d+) max_candidate_pcs=(\d+)', mout)
+                if m:
+                    lstats["atomic_steps"] += int(m.group(2)); lstats["inv_b_checks"] += int(m.group(3)); lstats["calls"] += int(m.group(4))
+                    lstats["observer_loads"] += int(m.group(5)); lstats["inferred_purge_steps"] += int(m.group(6))
+                for l in mout.splitlines():
+                    if l.startswith("PC "):
+                        for k, x in re.findall(r'([\w.]+)=(\d+)', l): pcs[k] += int(x)
+                    elif l.startswith("EV "):
+                        for k, x in re.findall(r'([\w().-]+)=(\d+)', l): evs[k] += int(x)
+                mm = [l for l in mout.splitlines() if l.startswith("MISMATCH")]
+                d = re.search(r'DONE (\d+) (\d+)', mout)
+                if mm or not d or int(d.group(2)) != 0 or not m:
+                    lstats["mismatching_logs"] += 1
+                    if first_mismatch is None or job[1] < first_mismatch[0][1]:
+                        first_mismatch = (job, mm[0] if mm else mout[-300:], bool(v))
+    # ---- report ---------------------------------------------------------------------------------------------
+    wit0 = None
+    for kind in sorted(found, key=lambda k: found[k][0][1]):
+        (mode, sd, nt, nops), text = found[kind]
+        snt, snops = sched_shrink(exe, mode, sd, nt, nops, kind)
+        if (snt, snops) != (nt, nops):
+            v, _, _ = sched_parse(*sched_run(exe, mode, sd, snt, snops))
+            text = next((x for k, x in v if k == kind), text)
+        # what the interleaving model says about this schedule
+        verdict = ""
+        if okb:
+            _, _, _, mout = sched_lockstep(exe, (mode, sd, snt, snops))
+            mm = [l for l in mout.splitlines() if l.startswith("MISMATCH")]
+            verdict = ("\n# lockstep replay on Model/Bitmap.v: " + (mm[0] if mm else "the model follows the log up to the violation"))
+        wit = "# schedule replay (deterministic): build/s_arena %s %d %d %d\n# oracle: %s %s%s" % (mode, sd, snt, snops, kind, text, verdict)
+        if wit0 is None: wit0 = wit
+        res.violation("impl:sched-" + kind, "%s under the deterministic scheduler, mode %s (seed %d, %d threads, %d ops per thread): %s" % (kind, mode, sd, snt, snops, text[:900]),
+                      witness=wit, replay_name="C14_%s_%s_%d.sched" % (kind, mode, sd))
+    if first_mismatch:
+        (mode, sd, nt, nops), text, oracle_failed = first_mismatch
+        # the model cannot take the logged step of the real code: the decomposition into atomic steps (what the interleaving theorems
+        # are about) no longer matches.  A concrete failing input exists only when an implementation oracle failed as well.
+        res.violation("corr:bitmap-lockstep", "the small-step machine of Model/Bitmap.v cannot follow the atomic accesses of the real code (schedule: build/s_arena %s %d %d %d log | replay bitmap-trace; %d of %d logs): %s"
+                      % (mode, sd, nt, nops, lstats["mismatching_logs"], lstats["logs"], text[:600]),
+                      witness=(wit0 + "\n# lockstep schedule: build/s_arena %s %d %d %d log" % (mode, sd, nt, nops)) if wit0 else None,
+                      replay_name="C14_lockstep_%s_%d.sched" % (mode, sd))
+    never = [k for k in PC_KEYS if pcs.get(k, 0) == 0]
+    res.cov["scheduler"] = dict(stats, harness_histogram=dict(hsum))
+    res.cov["lockstep"] = dict(lstats, machine_pc_histogram={k: pcs.get(k, 0) for k in PC_KEYS}, machine_pcs_never_exercised=never, ghost_events=dict(evs),
+                               note="one entry per program counter of Model/Bitmap.v (CAS pcs split by outcome): number of logged atomic accesses of the REAL code that the model thread took at that pc")
+    res.cov["evaluations"] += stats["schedules"] + lstats["atomic_steps"]
+    res.cov["distinct_nontrivial"] += stats["schedules"]
+    res.cov["traces_validated_against_impl"] += lstats["logs"]
+    res.add_samples(["s_arena %s %d %d %d" % j for j in (ojobs[0], ojobs[n_oracle])] + ["s_arena %s %d %d %d log | replay bitmap-trace" % j for j in (ljobs[0], ljobs[n_lock])], limit=12)
+    return never
+
+
+def replay(res, path):
+    txt = open(path).read()
+    m = re.search(r'build/s_arena (\w+) (\d+) (\d+) (\d+)', txt)
+    if not m:
+        res.violation("replay", "not a schedule replay file of C14: " + path); return
+    exe = sched_build(res)
+    if exe is None: return
+    v, end, h = sched_parse(*sched_run(exe, m.group(1), int(m.group(2)), int(m.group(3)), int(m.group(4))))
+    for kind, text in v:
+        res.violation("impl:sched-" + kind, "replay: " + text, witness=txt)
+    if vlib.ocaml_build()[0]:
+        _, _, _, mout = sched_lockstep(exe, (m.group(1), int(m.group(2)), int(m.group(3)), int(m.group(4))))
+        mm = [l for l in mout.splitlines() if l.startswith("MISMATCH")]
+        if mm:
+            res.violation("corr:bitmap-lockstep", "replay: " + mm[0][:800], witness=txt if v else None)
+    res.cov["evaluations"] += 1; res.cov["distinct_nontrivial"] += 1
+    res.add_samples([m.group(0)])
+
 
 def run(res, a):
+    if a.replay:
+        return replay(res, a.replay)
     proofs_ok = vlib.proof_stage(res, "C14")
     thorough = (a.tier == "thorough")
     # ---- build + run the harness on the current tree -------------------------------------------------
@@ -102,22 +277,31 @@ def run(res, a):
             if ms:
                 res.violation("model:schedule-invariant", "model-side schedule test failed (contradicts theorem C14_reachable_inv): " + ms[0][:1500], witness=None)
     # ---- evidence --------------------------------------------------------------------------------------
+    res.cov["evaluations"] = 0; res.cov["distinct_nontrivial"] = 0; res.cov["traces_validated_against_impl"] = 0
+    never = sched_stage(res, a, proofs_ok)
     fcount = collections.Counter(l.split()[1] for l in flines)
     nchecks = sum(c[0] for c in sums.values())
-    res.cov["evaluations"] = len(flines) + nchecks + int(sinfo.get("steps", 0))
-    res.cov["distinct_nontrivial"] = len(set(flines))
+    res.cov["evaluations"] += len(flines) + nchecks + int(sinfo.get("steps", 0))
+    res.cov["distinct_nontrivial"] += len(set(flines))
     res.cov["rule"] = ("F records: a real function of src/bitmap.c (static.c TU) on a PRNG bitmap of 1..4 fields compared bit-exactly (result + bitmap after) "
                        "with the extracted sequential Coq model; `across`/`unclaimx` records additionally with the small-step machine run alone. "
-                       "T: implementation oracles (see implementation_oracles: checked / failed). S (model_side_schedule_tests): MODEL-SIDE ONLY, "
-                       "inv_b after every step of random interleavings of the extracted small-step model. distinct = distinct F record lines")
-    res.cov["traces_validated_against_impl"] = len(flines)
+                       "T: implementation oracles (see implementation_oracles: checked / failed). "
+                       "S (scheduler, lockstep): harness/s_arena.c runs the real bitmap.c (mode raw: one shared bitmap of 1-4 fields) and the real arena.c (mode arena: "
+                       "mi_manage_os_memory_ex arena of 66-200 blocks, _mi_arena_alloc_aligned / _mi_arena_free / _mi_arenas_collect under a purge delay and a virtual clock) "
+                       "in 2-4 virtual threads, every mi_atomic_* a scheduling point chosen by a seeded PRNG; oracles on a shadow owner array after every atomic write "
+                       "(no owned or pre-claimed bit cleared, no bit handed out twice, own ranges unclaim with all bits set, bitmap back to the initial pattern at quiescence, "
+                       "arena allocatable completely again); the logged runs are replayed in lockstep on the extracted small-step machine: the model thread must take exactly "
+                       "the logged access (field, old value, new value, load / CAS ok / CAS fail / store / fetch-and) at every step, inv_b after every step, call results equal. "
+                       "M (model_side_schedule_tests): MODEL-SIDE ONLY, inv_b after every step of random interleavings of the extracted small-step model. "
+                       "distinct = distinct F record lines + distinct (mode, seed, threads, ops) schedules")
+    res.cov["traces_validated_against_impl"] += len(flines)
     res.cov["disagreements_checked"] = len(mism)
     res.cov["input_distribution"] = {"F": dict(fcount)}
     res.cov["implementation_oracles"] = {k: {"checked": v[0], "failed": v[1]} for k, v in sums.items()}
     res.cov["pthread_stress_runs"] = runs.get("stress_run", [])
     res.cov["real_arena_runs"] = runs.get("arena_run", [])
     res.cov["machine_alone_vs_real_code_records"] = int(minfo.get("machine_solo_checked", 0))
-    res.cov["model_side_schedule_tests"] = dict(sinfo, note="model-side testing of the extracted small-step machine (supports the theorems; NOT a comparison with the real code: the schedule-lockstep replay needs the MI_VERIF_HOOKS scheduler, interface: `replay bitmap-trace`)")
+    res.cov["model_side_schedule_tests"] = dict(sinfo, note="model-side testing of the extracted small-step machine (supports the theorems; NOT a comparison with the real code: that is the `lockstep` entry)")
     res.cov["exhaustive"] = False
     pick = lambda xs, k: [l for l in xs if l.startswith(k)][:1]
     res.add_samples(pick(flines, "F across") + pick(flines, "F facross") + pick(flines, "F unclaimx") + pick(flines, "F field") +
@@ -125,6 +309,12 @@ def run(res, a):
     res.assumptions += [
         "64-bit Linux release configuration, MI_HAVE_FAST_BITSCAN; MI_BITMAP_FIELD_BITS = 64 (checked against Gen/Consts.v by Proofs/BitmapProofs.v consts_ok)",
         "sequentially consistent interleaving of the atomic accesses of bitmap.c (all accesses are to single fields; acq_rel CAS / fetch-and, relaxed loads): weaker orderings of the C11 memory model are not modelled",
-        "the decomposition of the C functions into atomic steps is tied to the code by the F records of the sequential runs and by the multi-threaded oracles, not yet by a schedule-lockstep replay (needs the MI_VERIF_HOOKS scheduler)",
+        "the decomposition of the C functions into atomic steps is tied to the code by the schedule-lockstep replay (harness/s_arena.c under the MI_VERIF_HOOKS scheduler vs the extracted machine, `lockstep` in the coverage) on the sampled schedules, besides the F records of the sequential runs and the pthread oracles; "
+        "machine pcs that no sampled schedule reached are listed in lockstep.machine_pcs_never_exercised" + (" (this run: scheduler stage not run)" if never is None else (" (this run: " + ", ".join(never) + ")") if never else " (this run: none)"),
+        "lockstep abstractions: (1) only accesses to the fields of the bitmap under test are compared (blocks_inuse in arena mode; accesses to blocks_purge / blocks_committed / blocks_dirty, purge_expire, statistics are scheduling points but not machine steps); "
+        "(2) the arguments of the purge operations inside _mi_arena_free / _mi_arenas_collect are not visible to the harness (static functions of arena.c): the replay accepts a purge step when SOME OpPurge(bitmap_idx, len) "
+        "of the accessed field can take it (set of candidate pcs, collapses at the first successful CAS); (3) _mi_bitmap_is_claimed_across is an observer, not a machine operation: its loads must read the model's field values; "
+        "(4) _mi_bitmap_unclaim of an in-field range is replayed as OpFree (the same single fetch-and)",
+        "the virtual threads are cooperative: an atomic access and the shadow-array update that follows a returning call are not separated by a scheduling point (the oracle sees exactly the linearisation the scheduler chose)",
         "request counts below 2^64-64 (arena block counts are below 2^39); a completed claim is freed at most once (the double-free check of _mi_arena_free is check-then-act)",
     ]
